@@ -87,7 +87,8 @@ type c09 struct {
 	formedAt   uint64                 // height at which the current contract was confirmed
 	afterChain string                 // the running attempt follows this chain event
 	renewals   int
-	broken     bool // host state of the current contract is known to be corrupt
+	allIDs     []types.FileContractID // every contract this worker's host signed (renewed-away ones included)
+	broken     bool                   // host state of the current contract is known to be corrupt
 }
 
 const c09Stored = 12
@@ -131,6 +132,7 @@ func (c *c09) freshContract() error {
 	c.broken = false
 	c.revs, c.renewals, c.afterChain = nil, 0, ""
 	c.formedAt = c.lab.CM.Tip().Height
+	c.allIDs = []types.FileContractID{c.contract.ID}
 	c.r.Count("contracts_formed", 1)
 	return nil
 }
@@ -357,6 +359,12 @@ func (c *c09) attempt(cs c09Case, setup bool) error {
 		if cs.Kind == "roots" && (cs.Offset+cs.Length > uint64(len(c.model)) || !slices.Equal(out.listed, c.model[cs.Offset:cs.Offset+cs.Length])) {
 			c.violation("listing-mismatch", "listed roots differ from the model slice", cs,
 				map[string]any{"listed": shortRoots(out.listed), "model": shortRoots(c.model)})
+		}
+		if (cs.Kind == "free" || cs.Kind == "append") && c.renewals > 0 {
+			// a revision of the renewal must not disturb the contracts it was renewed from
+			if n := c.auditAll(cs); n > 0 && cs.Kind == "free" {
+				c.r.Count("renewed_away_contracts_audited_after_free_on_renewal", n)
+			}
 		}
 		if cs.Kind == "append" {
 			for i, h := range post.State.Roots {
@@ -1191,6 +1199,7 @@ func runC09(r *mon.Run, replay string) {
 	r.Floor("rpcs_succeeded_after_chain_event", 60)
 	r.Floor("renewals_with_capacity_above_filesize", 20)
 	r.Floor("multi_contract_rounds", 200)
+	r.Floor("renewed_away_contracts_audited_after_free_on_renewal", 30)
 	r.Floor("append_batches_with_repeated_unknown_roots", 30)
 	r.Floor("three_actor_rounds", 40)
 	r.Floor("three_actor_contenders_refused", 80)
